@@ -20,6 +20,7 @@ LAWS = ['ShrinkKeepsPass', 'GrowKeepsPass', 'ExactImpliesSubset', 'LargerIsWeake
 
 def policy_text(p, name='verif'):
     has = set(p['has'])
+    sep = p.get('sep', ', ')
     lines = ['name = "%s"' % name, 'version = 1']
     if 'banner' in has:
         lines.append('banner = "%s"' % banner_text(p['banner']))
@@ -27,9 +28,9 @@ def policy_text(p, name='verif'):
         lines.append('compressions = %s' % ', '.join(p['comp']))
     for f in ('key', 'kex', 'enc', 'mac'):
         if f in has:
-            lines.append('%s = %s' % (FIELD_KEYS[f], ', '.join(p[f])))
+            lines.append('%s = %s' % (FIELD_KEYS[f], sep.join(p[f])))
     if p.get('opt'):
-        lines.append('optional host keys = %s' % ', '.join(p['opt']))
+        lines.append('optional host keys = %s' % sep.join(p['opt']))
     hks = _map(p.get('hks'))
     if hks:
         d = {}
@@ -201,6 +202,7 @@ def cli_cases(rnd, n):
             if i % 10 == 9:
                 peer['enc_c2s'] = [x for x in REAL['enc'] if x not in peer['enc']][:2] or ['aes128-cbc']
                 peer['mac_c2s'] = list(reversed(REAL['mac']))[:2]
+        pol['sep'] = (', ', ',', ' , ', ',  ')[i % 4]            # a policy file is written by people too: blanks around the commas are optional
         cases.append({'id': i + 1, 'policy': pol, 'peer': peer})
     return cases
 
